@@ -109,6 +109,10 @@ func (p *parser) advance() bool {
 
 		} else if char == '#' {
 			p.next()
+			if p.position > len(p.input) || p.input[p.position-1] != ' ' {
+				// only a single space after '#' is not part of the comment text
+				p.backup()
+			}
 			start := p.position
 			for {
 				c := p.next()
@@ -122,6 +126,10 @@ func (p *parser) advance() bool {
 			}
 			p.lastComment.WriteString(p.input[start:p.position])
 			p.next()
+			if p.position > len(p.input) {
+				// comment ended at end of input, there was no newline to consume
+				p.backup()
+			}
 
 		} else {
 			p.backup()
